@@ -305,7 +305,7 @@ def s4(ctx):
 def s5(ctx):
     obs = []
     wm = ctx.P.module(WEB)
-    wk = ctx.P.try_fold(wm, wm.const_exprs.get("WELLKNOWN_DAV_PATHS"))
+    wk = ctx.P.try_fold(wm, ast.Name(id="WELLKNOWN_DAV_PATHS", ctx=ast.Load()))     # also when it is imported from another module
     want = {"/.well-known/caldav", "/.well-known/carddav"}
     obs.append(ctx.ob(isinstance(wk, frozenset) and wk == want, WEB + ".WELLKNOWN_DAV_PATHS", "%s:1" % wm.rel, "both well-known paths listed",
                       "%s" % (sorted(wk) if wk else wk), "WELLKNOWN_DAV_PATHS is %s, expected %s" % (wk, sorted(want))))
@@ -526,7 +526,9 @@ def s9(ctx):
     obs = list(strip_obligations(ctx))
     gt = ctx.own_method("xandikos.store.git.GitStore", "get_type")
     cfg = ctx.cfg(gt)
-    sites = [n for n in cfg.stmt_nodes() for c in n.calls() if (dotted(c.func) or "").endswith("config.get_type")]
+    # the metadata back end's get_type(): `self.config.get_type()`, or the same call on however the back end is obtained
+    sites = [n for n in cfg.stmt_nodes() for c in n.calls() if isinstance(c.func, ast.Attribute) and c.func.attr == "get_type"
+             and "super" not in (dotted(c.func) or src(c.func)) and not (dotted(c.func) or "").startswith("Store.")]
     from .common import handler_catching
     fb = False
     for n in sites:
